@@ -244,3 +244,21 @@ Example C08_code_nonvacuous :
   fn_hasSubKeys gstate0 (VMap [(s "id", VFlt (s "7")); (s "hidden", VNil)]) [(s "!hidden", VStr (s "*"))] = Ret false /\
   fn_PathForKeyShortest (fun _ _ => [s "a.b.id"; s "configuration.id"; s "x.y.z.id"]) gstate0 [] (s "id") = Ret (s "configuration.id").
 Proof. vm_compute. repeat split. discriminate. Qed.
+
+(* the recursive walker behind ValuesForKey: go2v's translation of func hasKey IS the model's [has_key_walk], for every
+   fuel above the depth of the value *)
+From Mxj Require Import GenProofs.PureG3.
+
+Theorem C08_has_key_code_is_model : forall iv fuel st key ret cnt sk,
+  vd iv < fuel ->
+  fn_hasKey has_sub_keys fuel st iv key ret cnt sk
+  = Ret (ret ++ has_key_walk iv key sk, (cnt + Z.of_nat (length (has_key_walk iv key sk)))%Z).
+Proof. exact has_key_code_is_model. Qed.
+Print Assumptions C08_has_key_code_is_model.
+
+Example C08_has_key_code_nonvacuous :
+  let m := VMap [(s "a", VMap [(s "k", VStr (s "1")); (s "b", VList [VMap [(s "k", VMap [(s "id", VStr (s "7"))])]; VStr (s "x")])])] in
+  vd m < 6 /\
+  fn_hasKey has_sub_keys 6 gstate0 m (s "k") [] 0 [] = Ret ([VStr (s "1"); VMap [(s "id", VStr (s "7"))]], 2%Z) /\
+  fn_hasKey has_sub_keys 6 gstate0 m (s "k") [] 0 [(s "id", VStr (s "7"))] = Ret ([VMap [(s "id", VStr (s "7"))]], 1%Z).
+Proof. split; [vm_compute; repeat constructor|split; vm_compute; reflexivity]. Qed.
